@@ -3,9 +3,9 @@
 # total over shards of rapidcheck max_success (each Prop in the harness scales
 # it by its own weight); `size` is rapidcheck max_size.
 
-def stage(name, harness=None, flavour="asan", quick=None, thorough=None, env=None, props=None, case_timeout=300):
+def stage(name, harness=None, flavour="asan", quick=None, thorough=None, env=None, props=None, case_timeout=300, kind="rapidcheck", replay_only=False):
     return dict(name=name, harness=harness or name, flavour=flavour, quick=quick, thorough=thorough,
-                env=env or {}, props=props or [], case_timeout=case_timeout)
+                env=env or {}, props=props or [], case_timeout=case_timeout, kind=kind, replay_only=replay_only)
 
 CHECKS = {}
 
@@ -16,7 +16,7 @@ for _i in range(1, 21):
     NOT_APPLICABLE["C%02d" % _i] = "check under construction in this round: not claimed until its harness is committed"
 
 # "fix:" commits made to /repo (genuine defects found by these checks)
-FIX_COMMITS = ["24c34d5 (C19 peel on edgeless graph)", "7efd154 (C15 ConnRef ctor with transactions off)", "b7b870c (C02 static Solver split with scales)", "055d977 (C17 floyd_warshall)", "48d1978 (C15 ActionInfo::firstMove)", "c551cd9 (C06 calcRouteDist)",
+FIX_COMMITS = ["02941db (C15 processTransaction re-entrancy with transactions off)", "e107f1d (C15 queued endpoint change to an obstacle deleted in the same transaction)", "077756f (C15 pin constructor ordering)", "2226871 (C15 nested processTransaction from pin destructor)", "5170889 (C15 ~Router pending additions)", "d269b3c (C15 HyperedgeImprover leak)", "24c34d5 (C19 peel on edgeless graph)", "7efd154 (C15 ConnRef ctor with transactions off)", "b7b870c (C02 static Solver split with scales)", "055d977 (C17 floyd_warshall)", "48d1978 (C15 ActionInfo::firstMove)", "c551cd9 (C06 calcRouteDist)",
                "30473cc (C20 CmpNodePos)", "9f592b9 (C02 IncSolver::solve)"]
 HOOK_COMMITS = []
 
@@ -358,6 +358,38 @@ CHECKS["C20"] = dict(
          "by the desired positions, two rectangles with equal centre coordinates, a route with a bend, a layout of >= 3 nodes; distinct by FNV-1a of the case text",
     min_nontrivial=dict(quick=10000, thorough=100000),
     assumptions=["all translated coordinates stay below 2^20 in magnitude so every translated input is exactly representable"],
+)
+
+CHECKS["C15"] = dict(
+    stages=[stage("fuzz_avoid", flavour="fuzz", kind="fuzz", quick=dict(cases=160000, shards=16, max_len=600, timeout=1200),
+                  thorough=dict(cases=16000000, shards=16, max_len=1200, timeout=3600)),
+            # replay-only: the witnesses of assertion findings are cases of other harnesses
+            stage("ROUTE", props=["C03.", "C04.", "C05."], replay_only=True), stage("C10", props=["C10."], replay_only=True),
+            stage("C11", props=["C11."], replay_only=True), stage("C06", props=["C06."], replay_only=True),
+            stage("C13", props=["C13."], replay_only=True), stage("C19", props=["C19."], replay_only=True),
+            stage("C15reg", props=["C15."], replay_only=True, env={"ASAN_OPTIONS": "exitcode=70:detect_leaks=1:allocator_may_return_null=1"})],
+    engine="libFuzzer + rapidcheck replays",
+    technique="coverage-guided fuzzing (libFuzzer, structure-aware decoding of bytes into legal API histories) under AddressSanitizer, UBSan, "
+              "LeakSanitizer and the libraries' own assertions",
+    level_text="libFuzzer target for libavoid: bytes are decoded (FuzzedDataProvider) into legal histories of up to 40 operations - add shape, add "
+               "pin, add junction, add connector (free point / pin class / junction ends), set checkpoints, moveShape (relative, absolute, "
+               "resize), deleteShape (never one added in the open transaction), deleteConnector, move/delete junction, re-attach an endpoint, "
+               "processTransaction - with transactions on or off, both routing modes, hyperedge improvement that adds and deletes junctions "
+               "(transactions on; the decoder follows the documented protocol of reading the new/deleted object lists after every "
+               "transaction), and the router destroyed at the end whatever is still queued.  Oracle: ASan/UBSan reports, any vpsc::CriticalFailure whose site is not a listed finding, NaN in a route, and "
+               "LeakSanitizer after the router is gone.  In addition every other check of this suite runs its generated cases under "
+               "ASan+UBSan with assertions on and fails on a new assertion site, so C01-C19 double as C15 drivers for libvpsc, libcola, "
+               "libtopology and libdialect; the witnesses of the assertion findings they found are replayed here.",
+    level_note="MemorySanitizer is unusable in this image (no instrumented libstdc++), so uninitialised reads are only seen when UBSan catches them "
+               "(as with F5).  'Terminates' is observed through the per-case watchdogs of the other checks, not proved.  libFuzzer campaigns are "
+               "only approximately reproducible; the saved artifact is the reproducible unit.",
+    rule="libFuzzer executions of decoded API histories; non-trivial = the history contains at least one deletion and at least two "
+         "processTransaction calls and did not end in a known assertion; distinct by FNV-1a of the decoded operation trace",
+    min_nontrivial=dict(quick=2000, thorough=100000),
+    max_aborted_frac=0.2,
+    assumptions=["histories respect the documented preconditions: no deleteShape/deleteJunction of an object added in the open transaction, no use of a deleted handle (including those reported by newAndDeletedObjectListsFromHyperedgeImprovement), pin classes only where such a pin exists, no identical duplicate pins, no connector with both ends on one junction",
+                 "improveHyperedgeRoutesMovingAddingAndDeletingJunctions is generated only with transactions on: its read-the-lists-before-the-next-processTransaction protocol cannot be followed when every call processes",
+                 "junction-junction connectors never close a cycle (open finding F34, excluded by construction)"],
 )
 
 # every check treats a library assertion at a site that is not a listed C15 finding as a violation of its own property
